@@ -5,7 +5,7 @@ CONF = {
     "cli": True,
     "campaigns": [rapid("rapid", 400, 12000, bq=60, bt=1500)],
     "floors": {"verdict:clean": 0.03, "verdict:warnings-only": 0.05, "verdict:infos-only": 0.01, "verdict:errors": 0.2, "verdict:syntax-error": 0.1,
-               "syntax:main": 0.04, "syntax:module": 0.04, "snippet": 0.05, "config": 0.3, "override-effective": 0.05, "override-flips-verdict": 0.01, "ignore-comment": 0.05},
+               "syntax:main": 0.04, "syntax:module": 0.04, "snippet": 0.05, "config": 0.25, "override-effective": 0.05, "override-flips-verdict": 0.01, "ignore-comment": 0.05},
     "assumptions": [
         "the reference verdict uses falco's own parser and linter through the Go API (the property relates the command's verdict to the diagnostics, it does not judge the diagnostics); overrides and counting are re-implemented in the harness from docs/configuration.md",
         "rule override values are matched case-insensitively and unknown values are skipped (docs/configuration.md example uses lower case; runner prints a notice for unknown values)",
